@@ -300,6 +300,48 @@ def check_one(case):
                         kept=keeps, kept_called=keeps and len(calls) > 0, scalar_expiry=ename, **sig)
             except Exception as e:
                 out.viol('perdictable-raised', "%s with the scalar expiry %s raised %s: %s" % (label, ename, type(e).__name__, e), exc=type(e).__name__, scalar_expiry=ename, **sig)
+    # ---------------- renames: the value of an input lives in ANOTHER column of its table (a stale column named after the parameter sits next to it, before or after)
+    if data is None and surviving and tabs:
+        out.sub()
+        calls[:] = []
+
+        def rtable(n, ks):
+            ks = list(ks)[::-1]
+            cols7 = {'k': ks, 'p_' + n: ['%s:%s' % (n, k) for k in ks], n: ['stale:%s' % k for k in ks]}
+            if names.index(n) % 2:
+                cols7 = {c: cols7[c] for c in ('k', n, 'p_' + n)}
+            return dictable(cols7)
+        kw8 = {n: ('%s:*' % n if assign[n] == 'scalar' else rtable(n, assign[n])) for n in names}
+        ren = {n: 'p_' + n for n in tabs}
+        try:
+            j8 = join(kw8, on='k', renames=dict(ren), defaults=dict(defaults))
+            r8 = perdictable(f, on='k', renames=dict(ren), defaults=dict(defaults) if dfl else {})(**kw8)
+            out.call(2)
+            got8 = [{c: row[c] for c in ['k'] + names} for row in j8] if len(j8) else []
+            want8 = [dict({'k': k}, **{n: value_of(n, k) for n in names}) for k in surviving]
+            wantv = ['f(%s)' % ','.join([value_of(n, k) for n in names] + ['None'] * (4 - len(names))) for k in surviving]
+            if got8 != want8:
+                out.viol('join-wrong', 'join(%s, renames=%s) where every table also holds a stale column named after its parameter: rows %r, expected %r' % (label, ren, got8, want8), renames=True, **sig)
+            elif not isinstance(r8, dictable) or list(r8['k']) != surviving or list(r8['data']) != wantv:
+                out.viol('wrong-value', 'perdictable(f, on=k, renames=%s)(%s): got %r, expected keys %s values %s' % (ren, label, r8, surviving, wantv), generic=True, shared=False, renames=True, **sig)
+        except Exception as e:
+            out.viol('join-raised', 'join / perdictable(%s, renames=%s) raised %s: %s' % (label, ren, type(e).__name__, e), exc=type(e).__name__, renames=True, **sig)
+    # ---------------- a custom output column (col='price') and a table of previously computed prices that covers only SOME keys: the cache never restricts the key set
+    if data is None and surviving and tabs and len(surviving) >= 2:
+        out.sub()
+        calls[:] = []
+        kw9 = inputs()
+        kw9['price'] = dictable({'k': [surviving[0]], 'price': ['old:%s' % surviving[0]]})
+        try:
+            r9 = perdictable(f, on='k', col='price', defaults=dict(defaults) if dfl else {})(**kw9)
+            out.call()
+            want9 = ['f(%s)' % ','.join([value_of(n, k) for n in names] + ['None'] * (4 - len(names))) for k in surviving]
+            if not isinstance(r9, dictable) or 'price' not in r9.keys() or list(r9['k']) != surviving or list(r9['price']) != want9 or len(calls) != len(surviving):
+                out.viol('wrong-keys' if (isinstance(r9, dictable) and list(r9.get('k', [])) != surviving) else 'wrong-value',
+                         "%s with col='price' and a price table over %s only: got %r with %d calls of f, expected keys %s values %s" % (label, surviving[:1], r9, len(calls), surviving, want9),
+                         missing=True, extra=False, order_only=False, custom_col=True, **sig)
+        except Exception as e:
+            out.viol('perdictable-raised', "%s with col='price' and a partial price table raised %s: %s" % (label, type(e).__name__, e), exc=type(e).__name__, custom_col=True, **sig)
     # ---------------- no table at all, but a value that is a list / tuple / range / empty list: it is a VALUE (f gets it whole, once), not a column
     if data is None and not tabs and not dfl:
         for vname, v in (('[5]', [5]), ('[]', []), ('[1, 2, 3]', [1, 2, 3]), ("('T',)", ('T',)), ('range(2)', range(2))):
